@@ -151,6 +151,44 @@ theorem placeAtom_back (h1 : LatOK l1) (h2 : LatOK l2) (hl : a.lat = some l1) :
     placeAtom l2 l1 (placeAtom l1 l2 a) = a := by
   rw [placeAtom_chain a h2, placeAtom_self a h1 hl]
 
+/-- supercell folding (the `ncell` records of PDFfit / DISCUS files): when the new base vectors are
+`nx, ny, nz` times the old ones, fractional coordinates are divided by the multipliers … -/
+theorem ncell_fold_xyz (h2 : LatOK l2) {nx ny nz : ℝ} (hx : nx ≠ 0) (hy : ny ≠ 0) (hz : nz ≠ 0)
+    (hb : l2.base = l1.base.rowScale nx ny nz) :
+    (placeAtom l1 l2 a).xyz = ⟨a.xyz.x / nx, a.xyz.y / ny, a.xyz.z / nz⟩ := by
+  have e := h2.base_rec
+  rw [hb] at e
+  have e11 := congrArg Mat3.a11 e; have e12 := congrArg Mat3.a12 e; have e13 := congrArg Mat3.a13 e
+  have e21 := congrArg Mat3.a21 e; have e22 := congrArg Mat3.a22 e; have e23 := congrArg Mat3.a23 e
+  have e31 := congrArg Mat3.a31 e; have e32 := congrArg Mat3.a32 e; have e33 := congrArg Mat3.a33 e
+  simp only [Mat3.mul, Mat3.one, Mat3.rowScale] at e11 e12 e13 e21 e22 e23 e31 e32 e33
+  have z : ∀ {n p1 q1 p2 q2 p3 q3 : ℝ}, n ≠ 0 → p1 * n * q1 + p2 * n * q2 + p3 * n * q3 = 0 →
+      p1 * q1 + p2 * q2 + p3 * q3 = 0 := by
+    intro n p1 q1 p2 q2 p3 q3 hn h
+    have : n * (p1 * q1 + p2 * q2 + p3 * q3) = 0 := by linear_combination h
+    exact (mul_eq_zero.mp this).resolve_left hn
+  have o : ∀ {n p1 q1 p2 q2 p3 q3 : ℝ}, n ≠ 0 → p1 * n * q1 + p2 * n * q2 + p3 * n * q3 = 1 →
+      p1 * q1 + p2 * q2 + p3 * q3 = 1 / n := by
+    intro n p1 q1 p2 q2 p3 q3 hn h
+    field_simp
+    linear_combination h
+  have t11 := o hx e11; have t12 := z hx e12; have t13 := z hx e13
+  have t21 := z hy e21; have t22 := o hy e22; have t23 := z hy e23
+  have t31 := z hz e31; have t32 := z hz e32; have t33 := o hz e33
+  rw [placeAtom_xyz]
+  simp only [Mat3.vecMul, Mat3.mul, Vec3.mk.injEq]
+  refine ⟨?_, ?_, ?_⟩
+  · linear_combination a.xyz.x * t11 + a.xyz.y * t21 + a.xyz.z * t31
+  · linear_combination a.xyz.x * t12 + a.xyz.y * t22 + a.xyz.z * t32
+  · linear_combination a.xyz.x * t13 + a.xyz.y * t23 + a.xyz.z * t33
+
+/-- … and displacement tensors are unchanged (the normalised base vectors of a supercell are those
+of the cell: `ar` is divided by the factor the base vector is multiplied with) -/
+theorem ncell_fold_U (h2 : LatOK l2) (hN : l2.normbase = l1.normbase) : (placeAtom l1 l2 a).U = a.U := by
+  cases ha : a.aniso with
+  | false => exact placeAtom_U_iso a ha
+  | true => rw [placeAtom_U_aniso a ha, ← hN, h2.normbase_recnormbase, conj_one]
+
 end atom
 
 /-! ### the structure -/
